@@ -115,7 +115,16 @@ S7 = Scenario(
     depth={"quick": 2, "thorough": 3},
     note="a child and a top instance of the same definition; edits while connected")
 
-INSTANCE_SCENARIOS = [S2, S4, S5, S6, S7]
+S9 = Scenario(
+    "S9-repoint-after-reshape", seeds.seed_repoint,
+    ["port.create_pin", "port.add_pin", "definition.ports=", "port.pins=", "definition.create_port",
+     "wire.connect_pin", "wire.disconnect_pin", "instance.reference="],
+    limits={"positions": (None, 0), "names": (None,), "counts": (None, 1),
+            "proxy_pairs": lambda w: []},
+    depth={"quick": 2, "thorough": 3},
+    note="definition reshaped after it was instanced (pin added to a non-last port, ports reordered), then re-pointed")
+
+INSTANCE_SCENARIOS = [S2, S4, S5, S6, S7, S9]
 
 # ---------------------------------------------------------------- naming scopes (C10, C14)
 _SCOPE = {
